@@ -75,6 +75,7 @@ if late is not None:
         time.sleep(0.3)
         emit(late[0], late[1][0], late[1][1], late[1][2], True)
         sys.stdout.buffer.flush(); sys.stderr.buffer.flush()
+        open(os.environ["CV_PLAN"] + ".late_done", "w").close()
         os._exit(0)
     os._exit(plan.get("exit", 0))
 sys.exit(plan.get("exit", 0))
@@ -175,7 +176,12 @@ def worker(scn):
         r = C.fork_map(lambda _: CLI.run_cli(root, argv, clock=100, env=dict(scn.get("ambient") or {}, CV_PLAN=plan_path)), [0], nproc=1, timeout=900)[0]
         if scn["plan"].get("late_last"):
             import time
-            time.sleep(0.6)      # in a parallel slot the helper writes straight into the log file, after `cond` has returned
+            # in a parallel slot the helper writes straight into the log file, after `cond` has returned: wait for the helper
+            # (it leaves a marker when it is done; a fixed delay would be a guess on a loaded machine)
+            t_end = time.time() + 60
+            while scn["plan"]["blocks"] and not os.path.exists(plan_path + ".late_done") and time.time() < t_end:
+                time.sleep(0.01)
+            time.sleep(0.05)
         out_dir = os.path.join(root, "cond-out", "e.task.100")
         res = {"status": r.get("status") if isinstance(r, dict) else None, "err": str(r)[:300] if not isinstance(r, dict) else ""}
 
